@@ -34,7 +34,8 @@ theorem saveObject_no_crash (F : FloatOps α) (vars : List (Var α)) : saveObjec
   NV.C16.saveObject_no_crash F vars
 
 example : saveSize (α := Unit) ⟨fun _ => [49, 46, 53], fun _ => (), fun _ _ => (), fun _ _ => (), fun _ _ => (),
-    fun _ => (), fun _ => (), fun _ _ => true⟩ 0 (.arr (.cons (.str [34, 10]) .nil)) = some 11 := by decide
+    fun _ => (), fun _ => (), fun _ _ => true, fun _ => false, fun _ => false, fun _ => false⟩ 0
+    (.arr (.cons (.str [34, 10]) .nil)) = some 11 := by decide
 
 /-- **Restore is total: no memory error on ANY byte string.**  `restore_variable` applied to an arbitrary text
 yields a value or an LPC error; the model never reaches `crash`, i.e. never dereferences or advances the cursor
@@ -48,15 +49,30 @@ theorem restoreObject_total (F : FloatOps α) (mb : MbLen) (nc : Bool) (file : O
     (vars : List (Var α)) : (restoreObject F mb nc file vars).2 ≠ RoOut.crash :=
   NV.C16.Total.restoreObject_total F mb nc file vars
 
-/-- **Round trip** (`_partial`: the side condition `Savable` names the excluded regions — strings with CR, NUL or
-non-ASCII bytes, floats for which the float contract `FloatOK` fails (inf, nan, subnormal), float keys of mappings,
-integers outside int64, arrays beyond MaxArraySize; see Witness.lean for the Lean-checked counterexamples of the
-full statement and known/C16.jsonl for their replay on the driver).
-Restoring what `save_variable` wrote yields a value equal to the saved one with the same types — integers, strings,
-structure exactly; floats equal in their "%g" text; object references come back as 0. -/
-theorem roundtrip_partial (F : FloatOps α) (mb : MbLen) (v : Value α) (hs : Savable F v) :
+/-- **Round trip.**  Restoring what `save_variable` wrote yields a value equal to the saved one with the same
+types — integers, strings, structure exactly; floats equal in their saved text (the "%g" precision); object
+references come back as 0 (`erase`).
+
+THE DOMAIN, explicitly (`savable`, RtDefs.lean — a decidable check on the value alone):
+  * integers: all 64-bit values;  strings: every byte string without NUL (CR, `"`, `\`, invalid UTF-8 included);
+  * arrays up to MaxArraySize elements, classes, mappings, empty containers, ANY nesting depth, object references;
+  * mapping keys: anything but floats (two float keys that print alike collapse — open finding K5, witness
+    `Witness.float_keys_collapse`), integer / string / object keys pairwise different (true of every real mapping);
+  * floats: no condition on the value; `FloatsOK F v` is the stated contract of the float parameter (`FloatOK`: the
+    saved text is a number token that `parse_numeric` reads back to a float with the same saved text), which the
+    correspondence run checks on every generated double incl. ±0, subnormals, infinities and NaN.
+Before round 2 the domain also excluded CR (K1), inf/nan (K2), non-UTF-8 bytes (K3), subnormals (K4): repaired. -/
+theorem roundtrip (F : FloatOps α) (mb : MbLen) (v : Value α) (hs : savable v = true) (hf : FloatsOK F v) :
     ∃ v', restoreVariable F mb (save F v) = RvOut.value v' ∧ Equiv F (erase v) v' :=
-  NV.C16.roundtrip F mb v hs
+  NV.C16.roundtrip F mb v hs hf
+
+/-- a deeply nested value of the domain: array ∋ mapping (string key with `"` CR LF `\` 0xff ↦ class ∋ array ∋
+mapping (INT64_MIN ↦ array ∋ object reference, empty string), float; 7 ↦ empty mapping), INT64_MAX -/
+example : savable NV.C16.deepExample = true := by decide
+
+example (mb : MbLen) : ∃ v', restoreVariable NV.C16.rtF mb (save NV.C16.rtF NV.C16.deepExample) = RvOut.value v' ∧
+    Equiv NV.C16.rtF (erase NV.C16.deepExample) v' :=
+  roundtrip NV.C16.rtF mb NV.C16.deepExample (by decide) NV.C16.deepExample_floatsOK
 
 /-- **safe_restore_svalue keeps the old value on every error.** -/
 theorem safe_restore_keeps_old_on_error (F : FloatOps α) (mb : MbLen) (t : List Nat) (old : Value α)
